@@ -13,7 +13,7 @@ LEVEL_TEXT = ("Static structural proof of necessary conditions: (R15.1) alias-ba
               "(R15.3) in the grouping parser each branch taken on an opening symbol reaches its end only through a test "
               "of the matching closing token whose failing edge raises, and _parse raises when tokens remain. Matching "
               "semantics, the algebraic laws and sibling-order invariance are NOT decided.")
-LEVEL_EXTRA = 'Added after the seeded evaluation: (R15.3) every opening grouping token, including the exact-match form, tests its closing token and raises, and the token fetcher raises past the end; (R15.4) search results are merged and compared by object identity, never by tag equality. Added after the hunting pass: (R15.4) also the groups of two results are compared by identity; (R15.5) every fixed-text alternative of the tokenizer pattern has a kind in the Token table. (R15.6) the element-wise zip comparison of two results is dominated by a length comparison; (R15.7) the tokenizer builds one Token per occurrence. (R15.8) a bare term is tested against the schema-path terms of the tag.'
+LEVEL_EXTRA = 'Added after the seeded evaluation: (R15.3) every opening grouping token, including the exact-match form, tests its closing token and raises, and the token fetcher raises past the end; (R15.4) search results are merged and compared by object identity, never by tag equality. Added after the hunting pass: (R15.4) also the groups of two results are compared by identity; (R15.5) every fixed-text alternative of the tokenizer pattern has a kind in the Token table. (R15.6) the element-wise zip comparison of two results is dominated by a length comparison; (R15.7) the tokenizer builds one Token per occurrence. (R15.8) a bare term is tested against the schema-path terms of the tag. (R15.9) the star prefix is tested on the short form; (R15.10) the batch interface marks a row on the search result of that same row.'
 
 ACCESSORS = ["find_tags", "find_wildcard_tags", "find_exact_tags", "find_def_tags", "find_tags_with_term",
              "get_all_tags", "get_all_groups", "tags", "groups", "find_placeholder_tag"]
@@ -272,6 +272,45 @@ def run(ctx):
         ctx.check(ok, "R15.8", ftt.qualname, c, loc(ftt, c),
                   "the term is looked for in something other than the tag's schema-path terms: value and extension text then counts as a "
                   "term, so `Face` matches `Label/Face` and `~Face` stops matching it", desc="term tested against tag_terms")
+
+    # ---------------- R15.9: a trailing-star term is a prefix of the short form
+    ctx.rule("R15.9", "find_wildcard_tags tests the prefix on the tag's short form")
+    fwt = hg.methods.get("find_wildcard_tags")
+    if fwt is None:
+        raise AnalysisError("anchor HedGroup.find_wildcard_tags vanished")
+    ctx.saw(fwt)
+    rd9 = _RD15(fwt)
+    sw = [c for c in walk_no_nested(fwt.node) if isinstance(c, ast.Call) and call_name(c) == "startswith"]
+    ctx.floor("R15.9", "prefix tests in find_wildcard_tags", len(sw), 1)
+    for c in sw:
+        ok = _dep15(rd9, c.func.value, c, lambda x: isinstance(x, ast.Attribute) and x.attr == "short_tag")
+        ctx.check(ok, "R15.9", fwt.qualname, c, loc(fwt, c),
+                  "the prefix is tested on something other than the tag's short form: for an annotation written in long form "
+                  "(`Event/Sensory-event`) `Sens*` stops matching and `Eve*` matches", desc="prefix tested on short_tag")
+
+    # ---------------- R15.10: the batch interface decides each row on that row's own search
+    ctx.rule("R15.10", "in search_hed_objs the result that marks a row is computed in the same iteration")
+    from sa.dom import loop_fresh
+    for sf in service:
+        ctx.saw(sf)
+        vs = view(ctx, sf)
+        marks = [n_ for n_ in vs.cfg.nodes if n_.kind == "stmt" and isinstance(n_.ast, ast.Assign)
+                 and any(isinstance(t, ast.Subscript) and isinstance(t.value, ast.Attribute) and t.value.attr in ("at", "loc", "iat", "iloc")
+                         for t in n_.ast.targets)]
+        ctx.floor("R15.10", "row-marking stores in search_hed_objs", len(marks), 1)
+        for mk in marks:
+            for cond in vs.conds():
+                for lab in (True, False):
+                    if vs.edge_guards(cond, lab, mk):
+                        for nm in {x.id for x in ast.walk(cond.ast) if isinstance(x, ast.Name)}:
+                            defs = [d for d in ast.walk(sf.node) if isinstance(d, ast.Assign) and any(isinstance(t, ast.Name) and t.id == nm for t in d.targets)
+                                    and isinstance(d.value, ast.Call) and call_name(d.value) == "search"]
+                            if not defs:
+                                continue
+                            ctx.check(loop_fresh(vs, cond, nm), "R15.10", sf.qualname, cond.ast, loc(sf, cond.ast),
+                                      "`%s` tested for this row may still hold the search result of an earlier row (it is not assigned on "
+                                      "every path of the iteration): an empty entry after a matching row is reported as a match" % nm,
+                                      desc="`%s` is this row's own result" % nm)
 
 
 def _only_guards_raise(m, cmp):
